@@ -195,6 +195,68 @@ class IdentSim(object):
             raise Violation()
         self.m_issue(ev["u"], t, i, rec)
 
+    def op_fork(self, ev, i, rec):
+        """A pre-forking server: the master process (library loaded, nothing issued from this database yet) forks a
+        worker; master and worker each serve their own users from their own in-memory database.  The operating
+        system's entropy source is per process (the simulated one is re-keyed in the child), so whatever the two
+        processes issue must differ."""
+        import random as _random
+        from simcore.prng import derive
+        kw = dict(domain=self.sc.get("domain", "users.example.org"),
+                  name_qualifier=self.sc.get("nq", "https://idp.example.org/idp"))
+
+        def serve(users):
+            db = IdentDB({}, **kw)
+            out = []
+            for u in users:
+                for spq in ev["spqs"]:
+                    out.append(db.transient_nameid(u, spq, "").text)
+                    out.append(db.persistent_nameid(u, spq, "").text)
+            return out
+
+        rfd, wfd = os.pipe()
+        pid = os.fork()
+        if pid == 0:
+            code_ = 0
+            try:
+                os.close(rfd)
+                ids = self.world.ids
+                ids.rng = _random.Random(derive(self.sc["seed"], "ids-after-fork-%d" % i))
+                ids.states, ids.repeat_next, ids.repeat_times = [], None, 1
+                os.write(wfd, json.dumps(serve(ev["worker_users"])).encode())
+            except BaseException as e:      # noqa
+                try:
+                    os.write(wfd, json.dumps({"error": repr(e)[:200]}).encode())
+                except Exception:
+                    code_ = 1
+            finally:
+                os._exit(code_)
+        os.close(wfd)
+        chunks = []
+        while True:
+            b = os.read(rfd, 65536)
+            if not b:
+                break
+            chunks.append(b)
+        os.close(rfd)
+        os.waitpid(pid, 0)
+        self.count("fault.fork")
+        try:
+            theirs = json.loads(b"".join(chunks).decode())
+        except ValueError:
+            theirs = {"error": "no answer from the worker"}
+        if isinstance(theirs, dict):
+            rec["exc"] = theirs.get("error")
+            self.count("fork.worker-error")
+            return
+        mine = serve(ev["master_users"])
+        both = sorted(set(mine) & set(theirs))
+        if both or len(set(mine)) != len(mine) or len(set(theirs)) != len(theirs):
+            self.viol(i, "forked-workers-issue-same-identifier",
+                      "master and worker (different users) both issued %r" % (both[:2] or "duplicates within one process"))
+            raise Violation()
+        self.count("oracle.fork-identifiers-distinct")
+
     def op_construct(self, ev, i, rec):
         fmt = FORMATS[ev.get("fmt", "T")]
         pol = Policy({"default": {"nameid_format": fmt}}) if ev.get("via") != "nip" else None
@@ -845,6 +907,10 @@ def gen_c18(seed, tier):
                 ts.append(["".join(r.pick(HOSTILE_FIELD + ["a", "b", ""]) for _ in range(r.randrange(0, 3)))
                            for _ in range(5)])
             evs.append({"k": k, "ts": ts})
+    if backend == "dict" and mkrng(seed, "layout").chance(0.12):
+        # deployment knob: a pre-forking server - at some point a worker process is forked off
+        evs.insert(r.randrange(len(evs) + 1), {"k": "fork", "master_users": ["dave"], "worker_users": ["erin", "frank"],
+                                               "spqs": [x for x in spqs if x][:2]})
     return {"engine": "storesim", "prop": "C18", "seed": seed, "tier": tier, "backend": backend,
             "knobs": {"class": "entropy-faults" if faulty else "clean", "backend": backend, "empty_spq": empty_spq},
             "events": evs}
